@@ -10,10 +10,13 @@ import (
 )
 
 // TextAlphabet: one representative of every escaping / UTF-8 class.
-var TextAlphabet = []string{"a", `"`, `\`, "\n", "\t", "\b", "\f", "\r", "\x00", "\x1f", "\x7f", "<", "&", "é", " ", "😀", "\xff", "\xc0", "\xed\xa0\x80", "\xc3", "\x80", "\xf0\x9f\x98"}
+var TextAlphabet = []string{"a", `"`, `\`, "\n", "\t", "\b", "\f", "\r", "\x00", "\x1f", "\x7f", "<", "&", "é", " ", "😀", "\xff", "\xc0", "\xed\xa0\x80", "\xc3", "\x80", "\xf0\x9f\x98", "%"}
 
 // Text classes used in windows.
-var TextClasses = []string{"v", "", `a"b\c`, "\n\x00\x1f", "é😀 ", "\xff\xc3", "<&\x7f", EscapeLike}
+var TextClasses = []string{"v", "", `a"b\c`, "\n\x00\x1f", "é😀 ", "\xff\xc3", "<&\x7f", EscapeLike, FormatLike}
+
+// FormatLike is data that looks like fmt verbs: anything that passes data where a format string is expected mangles it.
+const FormatLike = "100%d %s%% %!v(x) %"
 
 // EscapeLike is data that LOOKS like JSON escapes (literal backslashes): anything that post-processes
 // encoded text by search-and-replace instead of encoding properly corrupts it.
@@ -74,7 +77,7 @@ func ClassValues(m string) []interface{} {
 	case "RawJSON":
 		return []interface{}{[]byte(`1`), []byte(`"s"`), []byte(`{"a":[1,{"b":null}]}`), []byte(`[]`), []byte(`null`), []byte(`{}`)}
 	case "RawCBOR":
-		return []interface{}{[]byte(nil), []byte{}, []byte{0x01}, []byte{0x83, 1, 2, 3}, []byte{0x18, 0xff}, []byte{0x82, 0x01, 0xf6}}
+		return []interface{}{[]byte(nil), []byte{}, []byte{0x01}, []byte{0x83, 1, 2, 3}, []byte{0x18, 0xff}, []byte{0x82, 0x01, 0xf6}, []byte{0xfb, 0x3f, 0xf8, 0, 0, 0, 0, 0, 0}, []byte{0x3b, 0xff, 0xfe, 0xfb, 0xef, 0xbe, 0xff, 0xff, 0xfa}} // the last two: base64 text with "+" and "/"
 	case "AnErr", "Err":
 		return []interface{}{nil, errors.New("e"), errors.New("a\"\n\xff"), (*PErr)(nil), ErrObj{"m"}, &PErr{"p"}}
 	case "Errs":
@@ -141,7 +144,7 @@ func ClassValues(m string) []interface{} {
 		return []interface{}{[]time.Duration(nil), []time.Duration{}, []time.Duration{time.Millisecond + 1, -1}}
 	case "Interface", "Any":
 		var nilInt *int
-		return []interface{}{nil, 1, "s\"\xff", 1.5, plainStruct{1, EscapeLike, nil}, map[string]interface{}{"z": 1, "a": []int{1}}, make(chan int), ObjV{Fields: []Field{{M: "Str", Key: "in", Val: "o"}}}, json.RawMessage(`{"r":1}`), []int{1, 2}, nilInt, (*ObjP)(nil), math.NaN(), []byte("b"), "<& ", BadJSON{"bad\x01\x7f\v\a\xff\"\\ <é\u2028"}}
+		return []interface{}{nil, 1, "s\"\xff", 1.5, plainStruct{1, EscapeLike, nil}, map[string]interface{}{"z": 1, "a": []int{1}}, make(chan int), ObjV{Fields: []Field{{M: "Str", Key: "in", Val: "o"}}}, json.RawMessage(`{"r":1}`), []int{1, 2}, nilInt, (*ObjP)(nil), math.NaN(), []byte("b"), "<& ", IndentedJSON{}, BadJSON{"bad\x01\x7f\v\a\xff\"\\ <é\u2028"}}
 	case "Type":
 		// the type string of an anonymous struct carries its tags verbatim: quotes, backslashes, control bytes
 		return []interface{}{nil, 1, "s", ObjV{}, (*PErr)(nil), struct {
@@ -152,7 +155,7 @@ func ClassValues(m string) []interface{} {
 	case "IPAddr":
 		return []interface{}{net.IP(nil), IPv4, IPv4m, IPv6, net.IP{1, 2, 3}}
 	case "IPPrefix":
-		return []interface{}{Net4, Net6, net.IPNet{}, net.IPNet{IP: net.IP{10, 1, 2, 3}, Mask: net.IPMask{255, 0, 255, 0}}}
+		return []interface{}{Net4, Net6, net.IPNet{}, net.IPNet{IP: net.IP{10, 1, 2, 3}, Mask: net.IPMask{255, 0, 255, 0}}, net.IPNet{IP: net.ParseIP("::ffff:1.2.3.0"), Mask: net.CIDRMask(120, 128)}}
 	case "MACAddr":
 		return []interface{}{net.HardwareAddr(nil), Mac6, Mac8, net.HardwareAddr{0, 1, 2, 3, 4, 5, 6, 7, 8, 9, 10, 11, 12, 13, 14, 15, 16, 17, 18, 19}}
 	}
